@@ -17,7 +17,9 @@ EXPLANATION = (
     "most_generic_logic are interpreted: <= is reflexive, antisymmetric and transitive on all distinct theories "
     "(all triples) and consistent on all pairs of logics, combine(a, b) is above a and b for all pairs, and for "
     "every target logic and three supported sets get_closer_logic returns a supported logic above the target "
-    "with no supported logic strictly in between, or raises exactly when none is above (R2).  Exhaustive "
+    "with no supported logic strictly in between, or raises exactly when none is above; Factory._get_solver_class, "
+    "interpreted over three probe solver classes that declare a few logics, creates the solver - selected by name "
+    "and by preference, for every requested logic - with one of its own logics, above the request and minimal (R2).  Exhaustive "
     "dispatch (R0).  The labels callers attach - get_logic(f) and the set-logic command written by "
     "smtlibscript_from_formula(f) - are obtained by interpreting those functions on the same skeletons; the "
     "logic they name enables every feature, is non-linear when the term is and is not quantifier-free when the "
